@@ -49,11 +49,18 @@ pub fn main(args: &[String]) -> i32 {
     let IpData { public_ip_info: ip_info, ip_secret_key, ip_cdi_secret_key } = test_create_ip_info(&mut rng0, 4, 10);
     let IpData { public_ip_info: mut ip_info2, .. } = test_create_ip_info(&mut rng0, 4, 10);
     ip_info2.ip_identity = ip_info.ip_identity;
-    let (ars_infos, ars_secret) = test_create_ars(&global.on_chain_commitment_key.g, 4, &mut rng0);
-    let (ars_infos_other, _) = test_create_ars(&global.on_chain_commitment_key.g, 4, &mut rng0);
+    let (ars_infos_small, ars_secret_small) = test_create_ars(&global.on_chain_commitment_key.g, 5, &mut rng0);
+    let (ars_infos_other, _) = test_create_ars(&global.on_chain_commitment_key.g, 5, &mut rng0);
+    // the same revokers under identities near 2^32 (used when many shares are combined)
+    let big = |i: u32| ArIdentity::new(u32::MAX - 16 + i);
+    let ars_infos_big: BTreeMap<ArIdentity, ArInfo<ArCurve>> = ars_infos_small.iter().map(|(k, x)| (big(u32::from(*k)), ArInfo { ar_identity: big(u32::from(*k)), ..x.clone() })).collect();
+    let ars_secret_big: BTreeMap<ArIdentity, _> = ars_secret_small.iter().map(|(k, x)| (big(u32::from(*k)), x.clone())).collect();
     drive(args, "c08-replay", |v, stats| {
         let idx = v["idx"].as_u64().unwrap_or(0);
         let mut rng = StdRng::seed_from_u64(1000 + idx);
+        let use_big = v["n"].as_u64().unwrap_or(0) >= 4;
+        let (ars_infos, ars_secret) = if use_big { (&ars_infos_big, &ars_secret_big) } else { (&ars_infos_small, &ars_secret_small) };
+        let ar_id = |i: u32| if use_big { big(i) } else { ArIdentity::new(i) };
         let max_accounts = v["max_accounts"].as_u64().unwrap() as u8;
         let id_use_data = test_create_id_use_data(&mut rng);
         let mut alist_map = BTreeMap::new();
@@ -66,8 +73,11 @@ pub fn main(args: &[String]) -> i32 {
         let req = &ops[0];
         let chosen: Vec<u32> = req["ars"].as_array().unwrap().iter().map(|x| x.as_u64().unwrap() as u32).collect();
         let thr = req["thr"].as_u64().unwrap() as u8;
-        let chosen_infos: BTreeMap<ArIdentity, ArInfo<ArCurve>> = ars_infos.iter().filter(|(k, _)| chosen.contains(&u32::from(**k))).map(|(k, x)| (*k, x.clone())).collect();
+        let chosen_ids: Vec<ArIdentity> = chosen.iter().map(|i| ar_id(*i)).collect();
+        let chosen_infos: BTreeMap<ArIdentity, ArInfo<ArCurve>> = ars_infos.iter().filter(|(k, _)| chosen_ids.contains(*k)).map(|(k, x)| (*k, x.clone())).collect();
         let context = IpContext::new(&ip_info, &chosen_infos, &global);
+        // the holder's wallet knows all revokers of the provider: credentials are also created in that wider context
+        let context_all = IpContext::new(&ip_info, ars_infos, &global);
         let version = req["version"].as_u64().unwrap();
         *stats.entry(format!("request:v{}:{}of{}", version, thr, chosen.len())).or_default() += 1;
         // ---- request and issuance
@@ -117,9 +127,10 @@ pub fn main(args: &[String]) -> i32 {
                     let policy = Policy { valid_to, created_at, policy_vec, _phantom: Default::default() };
                     let acc = CredentialData { keys: keys3(&mut rng), threshold: SignatureThreshold::TWO };
                     let noe: Either<TransactionTime, AccountAddress> = if op["account"] == "new" { Either::Left(EXPIRY) } else { Either::Right(AccountAddress([9u8; 32])) };
+                    let cctx = if idx % 2 == 1 { context_all } else { context };
                     let r = match &id_object {
-                        IdObj::V0(o) => create_credential(context, o, &id_use_data, counter, policy, &acc, &SystemAttributeRandomness {}, &noe),
-                        IdObj::V1(o) => create_credential(context, o, &id_use_data, counter, policy, &acc, &SystemAttributeRandomness {}, &noe),
+                        IdObj::V0(o) => create_credential(cctx, o, &id_use_data, counter, policy, &acc, &SystemAttributeRandomness {}, &noe),
+                        IdObj::V1(o) => create_credential(cctx, o, &id_use_data, counter, policy, &acc, &SystemAttributeRandomness {}, &noe),
                     };
                     *stats.entry(format!("create:{}", exp_ok)).or_default() += 1;
                     // within the limit a credential must come out; beyond it the library may refuse (then there is nothing for the chain to check)
@@ -137,24 +148,24 @@ pub fn main(args: &[String]) -> i32 {
                     *stats.entry(format!("verify:{}", p)).or_default() += 1;
                     let check = |c: &Cdi, g: &GlobalContext<ArCurve>, ip: &IpInfo<IpPairing>, ars: &BTreeMap<ArIdentity, ArInfo<ArCurve>>, noe: &Either<TransactionTime, AccountAddress>| verify_cdi(g, ip, ars, c, noe).is_ok();
                     let got = match p {
-                        "none" => check(cdi, &global, &ip_info, &ars_infos, noe),
-                        "other_ip" => check(cdi, &global, &ip_info2, &ars_infos, noe),
-                        "other_global" => check(cdi, &global2, &ip_info, &ars_infos, noe),
+                        "none" => check(cdi, &global, &ip_info, ars_infos, noe),
+                        "other_ip" => check(cdi, &global, &ip_info2, ars_infos, noe),
+                        "other_global" => check(cdi, &global2, &ip_info, ars_infos, noe),
                         "other_ar_key" => {
                             let mut ars = ars_infos.clone();
-                            let k = ArIdentity::new(chosen[0]);
-                            ars.get_mut(&k).unwrap().ar_public_key = ars_infos_other[&k].ar_public_key.clone();
+                            let k = ar_id(chosen[0]);
+                            ars.get_mut(&k).unwrap().ar_public_key = ars_infos_other[&ArIdentity::new(chosen[0])].ar_public_key.clone();
                             check(cdi, &global, &ip_info, &ars, noe)
                         }
-                        "other_address" => check(cdi, &global, &ip_info, &ars_infos, &Either::Right(AccountAddress([10u8; 32]))),
-                        "expiry_passed" => check(cdi, &global, &ip_info, &ars_infos, &Either::Left(TransactionTime { seconds: EXPIRY.seconds + 1 })),
+                        "other_address" => check(cdi, &global, &ip_info, ars_infos, &Either::Right(AccountAddress([10u8; 32]))),
+                        "expiry_passed" => check(cdi, &global, &ip_info, ars_infos, &Either::Left(TransactionTime { seconds: EXPIRY.seconds + 1 })),
                         "swap_ar_data" => {
                             let mut c2 = cdi.clone();
-                            let (a, b) = (ArIdentity::new(chosen[0]), ArIdentity::new(chosen[1]));
+                            let (a, b) = (ar_id(chosen[0]), ar_id(chosen[1]));
                             let (xa, xb) = (c2.values.ar_data[&a].clone(), c2.values.ar_data[&b].clone());
                             *c2.values.ar_data.get_mut(&a).unwrap() = xb;
                             *c2.values.ar_data.get_mut(&b).unwrap() = xa;
-                            check(&c2, &global, &ip_info, &ars_infos, noe)
+                            check(&c2, &global, &ip_info, ars_infos, noe)
                         }
                         "bitflips" => {
                             // single-bit perturbations spread over the whole encoding (positions vary with the behaviour)
@@ -166,7 +177,7 @@ pub fn main(args: &[String]) -> i32 {
                                 b[pos / 8] ^= 1 << (pos % 8);
                                 *stats.entry("bitflip".into()).or_default() += 1;
                                 if let Ok(c2) = Cdi::deserial(&mut Cursor::new(&b[..])) {
-                                    if to_bytes(&c2) == b && check(&c2, &global, &ip_info, &ars_infos, noe) {
+                                    if to_bytes(&c2) == b && check(&c2, &global, &ip_info, ars_infos, noe) {
                                         accepted = Some(pos);
                                     }
                                 }
@@ -190,7 +201,7 @@ pub fn main(args: &[String]) -> i32 {
                     let set: Vec<u32> = op["revokers"].as_array().unwrap().iter().map(|x| x.as_u64().unwrap() as u32).collect();
                     let mut shares: Vec<(ArIdentity, Message<ArCurve>)> = Vec::new();
                     for a in set.iter() {
-                        let id = ArIdentity::new(*a);
+                        let id = ar_id(*a);
                         let data = match cdi.values.ar_data.get(&id) {
                             Some(d) => d,
                             None => return fail(format!("op {}: chosen revoker {} has no share in the credential", n, a), J::Null, J::Null),
